@@ -438,28 +438,38 @@ func TestC17(t *testing.T) {
 	}
 	rec.Set("gap_endpoint_pairs_exhaustive", n)
 	rec.Sample(map[string]any{"kind": "gap", "a": []uint64{0, 0}, "b": []uint64{2, 1<<64 - 1}})
-	ep := rapid.OneOf(rapid.SampledFrom(c17Endpoints), rapid.Uint64(), rapid.Uint64Range(0, 50))
-	rapid.Check(t, func(rt *rapid.T) {
-		switch rapid.IntRange(0, 3).Draw(rt, "kind") {
-		case 0:
-			c17SizeLimit(rt, rec)
-		case 1:
-			c17Range(rt, rec)
-		case 2:
-			c17LastBlock(rt, rec)
-		default:
-			a1, a2, b1, b2 := ep.Draw(rt, "a1"), ep.Draw(rt, "a2"), ep.Draw(rt, "b1"), ep.Draw(rt, "b2")
-			if a1 > a2 {
-				a1, a2 = a2, a1
-			}
-			if b1 > b2 {
-				b1, b2 = b2, b1
-			}
-			rec.Case(c17GapNonTrivial(a1, a2, b1, b2), fmt.Sprint("gap", a1, a2, b1, b2))
-			rec.Class("gap_random")
-			if err := c17GapCheck(a1, a2, b1, b2); err != nil {
-				rt.Fatalf("%v", err)
-			}
+	rapid.Check(t, func(rt *rapid.T) { c17Prop(rt, rec) })
+}
+
+var c17Ep = rapid.OneOf(rapid.SampledFrom(c17Endpoints), rapid.Uint64(), rapid.Uint64Range(0, 50))
+
+func c17Prop(rt *rapid.T, rec *ev.Recorder) {
+	ep := c17Ep
+	switch rapid.IntRange(0, 3).Draw(rt, "kind") {
+	case 0:
+		c17SizeLimit(rt, rec)
+	case 1:
+		c17Range(rt, rec)
+	case 2:
+		c17LastBlock(rt, rec)
+	default:
+		a1, a2, b1, b2 := ep.Draw(rt, "a1"), ep.Draw(rt, "a2"), ep.Draw(rt, "b1"), ep.Draw(rt, "b2")
+		if a1 > a2 {
+			a1, a2 = a2, a1
 		}
-	})
+		if b1 > b2 {
+			b1, b2 = b2, b1
+		}
+		rec.Case(c17GapNonTrivial(a1, a2, b1, b2), fmt.Sprint("gap", a1, a2, b1, b2))
+		rec.Class("gap_random")
+		if err := c17GapCheck(a1, a2, b1, b2); err != nil {
+			rt.Fatalf("%v", err)
+		}
+	}
+}
+
+// FuzzC17: the same property driven by Go's coverage-guided fuzzer through rapid's byte-stream adapter (thorough tier).
+func FuzzC17(f *testing.F) {
+	rec := ev.For("C17", c17Rule)
+	f.Fuzz(rapid.MakeFuzz(func(rt *rapid.T) { c17Prop(rt, rec) }))
 }
